@@ -58,17 +58,11 @@ Definition clause_named (c : case) : bool :=
 Definition clause_call (c : case) : bool :=
   none_bad c && res_agree (r_gpos c) (r_gcall c) && res_agree (r_mpos c) (r_mcall c).
 
-(* known finding K1 (input-only class): the separately defined global `grayscale` applied to a colour
-   written in hsl()/hsla()/hwb() form answers in rgb form, color.grayscale keeps the hsl form *)
-Definition known_K1 (c : case) : bool :=
-  String.eqb (c_g c) "grayscale"
-  && (String.prefix "hsl" (c_arg0 c) || String.prefix "hwb" (c_arg0 c)).
-
 Definition b2z (b : bool) : Z := if b then 1%Z else 0%Z.
 Definition any_ok (c : case) : bool :=
   match r_gpos c, r_mpos c with ROk _, _ | _, ROk _ => true | _, _ => false end.
 
-(* [corr; forms; known class of forms; named; call; same object?; some spelling succeeded?] *)
+(* [corr; forms; named; call; same object?; some spelling succeeded?] *)
 Definition run (c : case) : list Z :=
-  [corr c; b2z (clause_forms c); (if known_K1 c then 1 else 0)%Z; b2z (clause_named c); b2z (clause_call c);
+  [corr c; b2z (clause_forms c); b2z (clause_named c); b2z (clause_call c);
    b2z (same_object (c_g c) (c_url c) (c_f c)); b2z (any_ok c)].
